@@ -8,7 +8,7 @@ From SU.gen Require Import Consts.
 From SU.Model Require Import Utils PhaseAcc Tables Adsr Lfo Quantizer Midi Glide Ribbon.
 From SU.Spec Require Import AdsrSpec QuantSpec MidiSpec RibbonSpec RunSpec.
 From SU.Proofs Require Import ClampProofs AdsrClockProofs AdsrLevelProofs.
-From SU.Proofs Require LfoProofs QuantProofs MidiParserProofs.
+From SU.Proofs Require LfoProofs QuantProofs.
 Open Scope R_scope.
 
 (** * A generic invariant argument for [steps_ok] *)
@@ -153,6 +153,18 @@ Proof. intros ops H. apply (quant_run_gen ops []). exact H. Qed.
 
 (** * MIDI *)
 
+Lemma data_sweep :
+  forallb (fun n => let b := Z.of_nat n in is_status_byte b || (b <=? 127)%Z) (seq 0 256) = true.
+Proof. vm_compute. reflexivity. Qed.
+
+Lemma data_small : forall b, is_byte b -> is_status_byte b = false -> (b <= 127)%Z.
+Proof.
+  intros b [H0 H1] Hs.
+  pose proof (proj1 (forallb_forall _ _) data_sweep (Z.to_nat b)) as H.
+  cbv beta zeta in H. rewrite Z2Nat.id in H by lia.
+  rewrite Hs in H. cbn [orb] in H. apply Z.leb_le. apply H. apply in_seq. lia.
+Qed.
+
 Lemma midi_no_panic : forall ch ops, Forall rx_op_ok ops ->
   steps_ok rx_step_ok (fun r o => fst (rx_step r o)) (rx_new ch) ops = true.
 Proof.
@@ -162,7 +174,303 @@ Proof.
   - intros r o _ Ho. destruct o as [b| | |p|b]; try reflexivity.
     cbn [rx_op_ok] in Ho. unfold rx_step_ok, parse_byte_ok.
     destruct (is_status_byte b) eqn:Hs; [reflexivity|].
-    apply Z.leb_le. apply MidiParserProofs.data_small; assumption.
+    apply Z.leb_le. apply data_small; assumption.
   - exact Logic.I.
   - exact Hops.
+Qed.
+
+(** * Ribbon *)
+
+Lemma to_u32_of_Z : forall z : Z, (0 <= z <= 16777216)%Z -> to_u32 (of_Z z) = z.
+Proof.
+  intros z Hz. destruct (fin_R32_of_Z_small z) as [V F]; [lia|].
+  rewrite to_u32_fin by exact F. rewrite V, Ztrunc_IZR. unfold U32_MAX. lia.
+Qed.
+
+Lemma poll_consts : forall r x,
+  rb_cap (ribbon_poll r x) = rb_cap r /\ rb_discard (ribbon_poll r x) = rb_discard r.
+Proof.
+  intros r x. unfold ribbon_poll. cbv zeta.
+  destruct (flt x (rb_boundary r)); [|split; reflexivity].
+  destruct (rb_ignore r <=? _)%Z; [|split; reflexivity].
+  destruct (_ =? _)%Z; split; reflexivity.
+Qed.
+
+Lemma rstep_consts : forall r o,
+  rb_cap (fst (ribbon_step r o)) = rb_cap r /\
+  rb_discard (fst (ribbon_step r o)) = rb_discard r.
+Proof.
+  intros r o. destruct o as [x| |].
+  - apply poll_consts.
+  - split; reflexivity.
+  - split; reflexivity.
+Qed.
+
+Lemma poll_ok_of : forall r x, (rb_discard r <= Z.of_nat (rb_cap r))%Z -> ribbon_poll_ok r x = true.
+Proof.
+  intros r x H. unfold ribbon_poll_ok. cbv zeta.
+  destruct (flt x (rb_boundary r)); [|reflexivity].
+  destruct (rb_ignore r <=? _)%Z; [|reflexivity].
+  destruct (_ =? _)%Z; [|reflexivity].
+  apply Z.leb_le. exact H.
+Qed.
+
+Lemma capacity_facts : forall fs : Z, (100 <= fs <= 192000)%Z ->
+  (1 <= sample_rate_to_capacity fs)%Z /\
+  (usec_to_samples fs RIBBON_RISE_TIME_USEC <= sample_rate_to_capacity fs)%Z.
+Proof.
+  intros fs Hfs. unfold sample_rate_to_capacity, usec_to_samples,
+    MIN_CAPTURE_TIME_USEC, RIBBON_RISE_TIME_USEC.
+  assert (H1 : (0 <= fs * 15000 / 1000000)%Z) by (apply Z.div_pos; lia).
+  assert (H2 : (0 <= fs * 2000 / 1000000)%Z) by (apply Z.div_pos; lia).
+  lia.
+Qed.
+
+Lemma ribbon_no_panic : forall (fs : Z) sp dr pu h,
+  (100 <= fs <= 192000)%Z ->
+  sample_rate_to_capacity_ok fs = true /\
+  let cap := Z.to_nat (sample_rate_to_capacity fs) in
+  ribbon_new_ok cap (of_Z fs) = true /\
+  steps_ok ribbon_step_ok (fun r o => fst (ribbon_step r o)) (ribbon_new cap (of_Z fs) sp dr pu) h = true.
+Proof.
+  intros fs sp dr pu h Hfs.
+  destruct (capacity_facts fs Hfs) as [Hc1 Hc2].
+  assert (Eu : to_u32 (of_Z fs) = fs) by (apply to_u32_of_Z; lia).
+  split.
+  { unfold sample_rate_to_capacity_ok, MIN_CAPTURE_TIME_USEC, RIBBON_RISE_TIME_USEC, U32_MAX.
+    apply andb_true_intro. split; apply Z.leb_le; lia. }
+  set (c := sample_rate_to_capacity fs) in *.
+  intros cap.
+  assert (Ecap : Z.of_nat cap = c) by (unfold cap; apply Z2Nat.id; lia).
+  split.
+  { unfold ribbon_new_ok. cbv zeta. rewrite Eu.
+    unfold usec_to_samples_ok, RIBBON_FALL_TIME_USEC, RIBBON_RISE_TIME_USEC, U32_MAX.
+    rewrite !andb_true_iff. repeat split.
+    - apply negb_true_iff. apply Nat.eqb_neq. intros E. rewrite E in Ecap.
+      change (Z.of_nat 0) with 0%Z in Ecap. lia.
+    - apply Z.leb_le. lia.
+    - apply Z.leb_le. lia. }
+  apply (steps_ok_inv ribbon_step_ok (fun r o => fst (ribbon_step r o))
+           (fun r => rb_cap r = cap /\ rb_discard r = usec_to_samples fs RIBBON_RISE_TIME_USEC)
+           (fun _ => True)).
+  - intros r o [E1 E2] _. destruct (rstep_consts r o) as [F1 F2].
+    rewrite F1, F2. split; assumption.
+  - intros r o [E1 E2] _. destruct o as [x| |]; try reflexivity.
+    cbn [ribbon_step_ok]. apply poll_ok_of. rewrite E1, E2, Ecap. exact Hc2.
+  - unfold ribbon_new. cbv zeta. cbn [rb_cap rb_discard]. rewrite Eu. split; reflexivity.
+  - apply Forall_True.
+Qed.
+
+(** * Glide *)
+
+(** halving is exact away from the subnormal range *)
+Lemma fmt_half : forall x, fmt x -> 1 <= Rabs x -> fmt (x / 2).
+Proof.
+  intros x Hx H1. unfold fmt in *.
+  apply FLT_format_generic in Hx; [|exact Hprec].
+  destruct Hx as [f Hf Hm He].
+  assert (Hm' : (Z.abs (Fnum f) < 16777216)%Z) by exact Hm.
+  destruct (Z.eq_dec (Fexp f) (-149)) as [E|E].
+  - exfalso.
+    assert (Hlt : Rabs x < 1).
+    { rewrite Hf. unfold F2R. rewrite E. rewrite Rabs_mult, <- abs_IZR.
+      rewrite (Rabs_pos_eq (bpow radix2 (-149))) by apply bpow_ge_0.
+      assert (Ha : IZR (Z.abs (Fnum f)) < 16777216) by (apply (IZR_lt _ 16777216); exact Hm').
+      assert (Ha0 : 0 <= IZR (Z.abs (Fnum f))) by (apply (IZR_le 0); apply Z.abs_nonneg).
+      assert (Hb : bpow radix2 (-149) <= / 16777216).
+      { assert (E24 : bpow radix2 (-24) = / 16777216) by exact (bpow2_neg 24 eq_refl).
+        rewrite <- E24. apply bpow_le. lia. }
+      assert (Hb0 : 0 <= bpow radix2 (-149)) by apply bpow_ge_0.
+      apply Rle_lt_trans with (IZR (Z.abs (Fnum f)) * / 16777216).
+      - apply Rmult_le_compat_l; assumption.
+      - lra. }
+    lra.
+  - apply generic_format_FLT.
+    exists (Float radix2 (Fnum f) (Fexp f + -1)).
+    + rewrite Hf. unfold F2R. cbn [Fnum Fexp]. rewrite bpow_plus.
+      assert (E1 : bpow radix2 (-1) = / 2) by exact (bpow2_neg 1 eq_refl).
+      rewrite E1. unfold Rdiv. ring.
+    + exact Hm.
+    + cbn [Fexp]. lia.
+Qed.
+
+Lemma fin_GL_DIV : fin GL_DIV.
+Proof. fin_const. Qed.
+
+Lemma R32_GL_DIV : R32 GL_DIV = 4.
+Proof. r32_const GL_DIV. lra. Qed.
+
+Lemma fin_GL_MIN_FC : fin GL_MIN_FC.
+Proof. fin_const. Qed.
+
+Lemma GL_MIN_FC_bounds : / 16 <= R32 GL_MIN_FC <= 1.
+Proof. r32_const GL_MIN_FC. lra. Qed.
+
+Lemma R32_f2 : R32 f_2 = 2.
+Proof. apply (R32_of_Z_small 2). lia. Qed.
+
+Lemma fin_f2 : fin f_2.
+Proof. apply (fin_of_Z_small 2). lia. Qed.
+
+(** [max_fc = fs / 4], exactly *)
+Lemma max_fc_val : forall fs, fs_ok fs ->
+  fin (fdiv fs GL_DIV) /\ R32 (fdiv fs GL_DIV) = R32 fs / 4.
+Proof.
+  intros fs [F B].
+  assert (Hfmt : fmt (R32 fs / 4)).
+  { replace (R32 fs / 4) with (R32 fs / 2 / 2) by field.
+    apply fmt_half; [apply fmt_half|].
+    - apply fmt_R32.
+    - rewrite Rabs_pos_eq; lra.
+    - rewrite Rabs_pos_eq; lra. }
+  destruct (fdiv_correct fs GL_DIV F fin_GL_DIV) as [V Ff].
+  - rewrite R32_GL_DIV. lra.
+  - rewrite R32_GL_DIV, (rnd_id _ Hfmt), MAXF_val. apply Rabs_lt. lra.
+  - rewrite R32_GL_DIV, (rnd_id _ Hfmt) in V. split; assumption.
+Qed.
+
+Lemma from_params_some : forall fs f0,
+  flt fs (fmul f_2 f0) = false -> exists c, from_params fs f0 = Some c.
+Proof. intros fs f0 H. unfold from_params. rewrite H. eexists. reflexivity. Qed.
+
+(** Nyquist check of [from_params]: passes for every cutoff up to [fs / 2] *)
+Lemma from_params_ok : forall fs f0, fs_ok fs -> fin f0 -> 0 <= R32 f0 <= R32 fs / 2 ->
+  exists c, from_params fs f0 = Some c.
+Proof.
+  intros fs f0 [F B] F0 H0. apply from_params_some.
+  assert (Hb : 0 <= rnd (R32 f_2 * R32 f0) <= R32 fs).
+  { rewrite R32_f2. apply rnd_bounds; [apply fmt_0 | apply fmt_R32 | lra]. }
+  destruct (fmul_correct f_2 f0 fin_f2 F0) as [V Fm].
+  { rewrite MAXF_val. apply Rabs_lt. lra. }
+  apply (proj2 (flt_false fs (fmul f_2 f0) F Fm)). rewrite V. lra.
+Qed.
+
+Definition ginv (fs : f32) (g : glide) : Prop :=
+  g_fs g = fs /\ g_max_fc g = fdiv fs GL_DIV /\ g_min_fc g = GL_MIN_FC.
+
+Lemma glide_new_some : forall fs, fs_ok fs -> exists g, glide_new fs = Some g /\ ginv fs g.
+Proof.
+  intros fs Hfs. destruct (max_fc_val fs Hfs) as [Fm Vm]. pose proof Hfs as [F B].
+  unfold glide_new. cbv zeta.
+  assert (H1 : hz_ok fs = true).
+  { unfold hz_ok. apply (proj2 (flt_true f_0 fs fin_f0 F)). rewrite R32_f0. lra. }
+  assert (H2 : hz_ok (fdiv fs GL_DIV) = true).
+  { unfold hz_ok. apply (proj2 (flt_true f_0 _ fin_f0 Fm)). rewrite R32_f0, Vm. lra. }
+  rewrite H1, H2. cbn [andb].
+  destruct (from_params_ok fs (fdiv fs GL_DIV) Hfs Fm) as [c Hc]; [rewrite Vm; lra|].
+  rewrite Hc. eexists. split; [reflexivity|].
+  unfold ginv. cbn [g_fs g_max_fc g_min_fc]. repeat split; reflexivity.
+Qed.
+
+(** [set_time] succeeds for EVERY argument: the clamp to [min_fc, max_fc] absorbs NaN,
+    infinities and out-of-range values *)
+Lemma set_time_some : forall fs g t, fs_ok fs -> ginv fs g ->
+  exists g', glide_set_time g t = Some g' /\ ginv fs g'.
+Proof.
+  intros fs g t Hfs (E1 & E2 & E3).
+  unfold glide_set_time. destruct (is_almost t (g_cached_t g) GL_EPS).
+  - exists g. split; [reflexivity | repeat split; assumption].
+  - cbv zeta. unfold glide_f0. rewrite E1, E2, E3.
+    destruct (max_fc_val fs Hfs) as [Fm Vm]. pose proof Hfs as [F B].
+    pose proof GL_MIN_FC_bounds as Hmin.
+    pose proof (clamp_maxmin (fdiv f_1 t) GL_MIN_FC (fdiv fs GL_DIV) fin_GL_MIN_FC Fm) as Hc.
+    cbv zeta in Hc. destruct Hc as (Fr & Br & _); [rewrite Vm; lra|].
+    set (f0 := fmin (fmax (fdiv f_1 t) GL_MIN_FC) (fdiv fs GL_DIV)) in *.
+    assert (H1 : hz_ok f0 = true).
+    { unfold hz_ok. apply (proj2 (flt_true f_0 f0 fin_f0 Fr)). rewrite R32_f0. lra. }
+    rewrite H1.
+    destruct (from_params_ok fs f0 Hfs Fr) as [c Hc]; [rewrite Vm in Br; lra|].
+    rewrite Hc. eexists. split; [reflexivity|].
+    unfold ginv. cbn [g_fs g_max_fc g_min_fc]. repeat split; reflexivity.
+Qed.
+
+Lemma glide_run_some : forall fs ops g, fs_ok fs -> ginv fs g ->
+  exists g', glide_run (Some g) ops = Some g'.
+Proof.
+  intros fs ops. induction ops as [|o r IH]; intros g Hfs Hg; cbn [glide_run].
+  - exists g. reflexivity.
+  - destruct o as [t|x]; cbn [glide_step].
+    + destruct (set_time_some fs g t Hfs Hg) as (g' & E & Hg'). rewrite E.
+      apply IH; assumption.
+    + apply IH; [exact Hfs|].
+      destruct Hg as (E1 & E2 & E3). unfold glide_process.
+      destruct (df1_run (g_lpf g) x) as [d y].
+      unfold ginv. cbn [fst g_fs g_max_fc g_min_fc]. repeat split; assumption.
+Qed.
+
+Lemma glide_no_panic : forall fs ops, fs_ok fs -> Forall glide_op_ok ops ->
+  exists g, glide_run (glide_new fs) ops = Some g.
+Proof.
+  intros fs ops Hfs _.
+  destruct (glide_new_some fs Hfs) as (g0 & E & Hg0). rewrite E.
+  apply (glide_run_some fs ops g0 Hfs Hg0).
+Qed.
+
+(** * Liveness with the final levels *)
+
+Lemma tick_sustain_same : forall s, InvC s -> a_sustain (adsr_step s ATick) = a_sustain s.
+Proof.
+  intros s I. unfold adsr_step, adsr_tick. cbv zeta. rewrite a_sustain_wv.
+  destruct (tick_advance_weak s (inv_acc s I)) as [(E & _) _]. exact E.
+Qed.
+
+Lemma RI_gate_run : forall fs ops o, RI (adsr_step (adsr_run fs ops) o).
+Proof.
+  intros fs ops o. apply RI_step. split.
+  - apply adsr_inv_level.
+  - apply (inv_acc _ (adsr_inv_clock fs ops)).
+Qed.
+
+Lemma envelope_reaches_sustain : forall fs ops, fs_ok fs ->
+  let s := adsr_step (adsr_run fs ops) AGateOn in
+  exists n, (Z.of_nat n <= 8388610)%Z /\
+    let s' := fold_left adsr_step (repeat ATick n) s in
+    a_state s' = Sustain /\ R32 (a_value s') = R32 (a_sustain s').
+Proof.
+  intros fs ops Hfs s.
+  assert (I0 : InvC s) by (apply InvC_step, adsr_inv_clock).
+  assert (R0 : RI s) by apply RI_gate_run.
+  assert (Ef : pa_fs (a_pa s) = fs) by (unfold s; rewrite step_fs; apply run_fs).
+  assert (St : a_state s = Attack) by apply gate_on_spec.
+  destruct (finish_phase s I0) as (n1 & Hn1 & I1 & St1 & Ef1);
+    [rewrite Ef; exact Hfs | rewrite St; reflexivity|].
+  rewrite St in St1. cbn [next_phase] in St1.
+  destruct (finish_phase (ticks n1 s) I1) as (n2 & Hn2 & I2 & St2 & Ef2);
+    [rewrite Ef1, Ef; exact Hfs | rewrite St1; reflexivity|].
+  rewrite St1 in St2. cbn [next_phase] in St2.
+  assert (R2 : RI (ticks n2 (ticks n1 s))) by (unfold ticks; apply RI_run, RI_run, R0).
+  exists (n1 + n2 + 1)%nat. split; [lia|].
+  cbv zeta.
+  change (fold_left adsr_step (repeat ATick (n1 + n2 + 1)) s) with (ticks (n1 + n2 + 1) s).
+  rewrite !ticks_add.
+  set (s2 := ticks n2 (ticks n1 s)) in *.
+  change (ticks 1 s2) with (adsr_step s2 ATick).
+  pose proof (sustain_shape s2 (conj I2 (proj1 R2)) St2) as H. cbv zeta in H.
+  destruct H as [A B]. split; [exact A|].
+  rewrite B, (tick_sustain_same s2 I2). reflexivity.
+Qed.
+
+Lemma envelope_reaches_rest : forall fs ops, fs_ok fs ->
+  let s := adsr_step (adsr_run fs ops) AGateOff in
+  a_state s = Release ->
+  exists n, (Z.of_nat n <= 4194305)%Z /\
+    let s' := fold_left adsr_step (repeat ATick n) s in
+    a_state s' = AtRest /\ R32 (a_value s') = 0.
+Proof.
+  intros fs ops Hfs s St.
+  assert (I0 : InvC s) by (apply InvC_step, adsr_inv_clock).
+  assert (R0 : RI s) by apply RI_gate_run.
+  assert (Ef : pa_fs (a_pa s) = fs) by (unfold s; rewrite step_fs; apply run_fs).
+  destruct (finish_phase s I0) as (n1 & Hn1 & I1 & St1 & Ef1);
+    [rewrite Ef; exact Hfs | rewrite St; reflexivity|].
+  rewrite St in St1. cbn [next_phase] in St1.
+  assert (R1 : RI (ticks n1 s)) by (unfold ticks; apply RI_run, R0).
+  exists (n1 + 1)%nat. split; [lia|].
+  cbv zeta.
+  change (fold_left adsr_step (repeat ATick (n1 + 1)) s) with (ticks (n1 + 1) s).
+  rewrite ticks_add.
+  set (s1 := ticks n1 s) in *.
+  change (ticks 1 s1) with (adsr_step s1 ATick).
+  pose proof (rest_shape s1 (conj I1 (proj1 R1)) St1) as H. cbv zeta in H.
+  exact H.
 Qed.
